@@ -284,3 +284,46 @@ func ValidateTrace(module, cfg string, lines [][]byte, extraFiles map[string][]b
 	}
 	return bad, res, nil
 }
+
+// SimulateBehaviours runs `tlc -simulate file=...` and returns the behaviours as sequences of parsed states.
+func SimulateBehaviours(module, cfg string, num, depth int, seed int64) ([][]map[string]any, *Result, error) {
+	dir, err := Scratch(module + "-simtraces")
+	if err != nil {
+		return nil, nil, err
+	}
+	defer os.RemoveAll(dir)
+	res, err := Run(Opts{Module: module, Cfg: cfg, Workers: 1, Simulate: fmt.Sprintf("file=%s/b,num=%d", dir, num), Depth: depth, Seed: seed})
+	if err != nil {
+		return nil, res, err
+	}
+	if res.Violated != "" || res.ErrorText != "" {
+		return nil, res, fmt.Errorf("simulation of %s: %s %s", module, res.Violated, res.ErrorText)
+	}
+	files, _ := filepath.Glob(filepath.Join(dir, "b_*"))
+	var out [][]map[string]any
+	for _, f := range files {
+		b, err := os.ReadFile(f)
+		if err != nil {
+			return nil, res, err
+		}
+		var beh []map[string]any
+		for _, chunk := range strings.Split(string(b), "STATE_")[1:] {
+			i := strings.Index(chunk, "==")
+			if i < 0 {
+				continue
+			}
+			body := chunk[i+2:]
+			if j := strings.Index(body, "\n\n"); j >= 0 {
+				body = body[:j]
+			}
+			body = strings.TrimRight(strings.TrimSpace(body), "=")
+			st, err := ParseState(body)
+			if err != nil {
+				return nil, res, fmt.Errorf("%s: %v", f, err)
+			}
+			beh = append(beh, st)
+		}
+		out = append(out, beh)
+	}
+	return out, res, nil
+}
